@@ -248,6 +248,8 @@ def run_intersect(unit, res, only=None):
     from vopy.confidence_region import RectangularConfidenceRegion
 
     rects = lattice.rectangles(2, n_lat)
+    if n_lat == 2:
+        rects = lattice.rectangles(2, n_lat, degenerate=True)  # zero-width boxes (zero predictive variance / zero scale) included
     nv = 0
     for L in range(1, depth + 1):
         for seq in itertools.product(range(len(rects)), repeat=L):
@@ -262,7 +264,9 @@ def run_intersect(unit, res, only=None):
                 c, hw = (lo + hi) / 2, (hi - lo) / 2
                 r.update(c, np.diag(hw ** 2), np.array(1.0))
                 res["transitions"] += 1
-                strictly = np.all(cur[0] < hi) and np.all(lo < cur[1])
+                # a zero-width box lying strictly inside the other one along that axis still intersects it
+                inter_lo, inter_hi = np.maximum(cur[0], lo), np.minimum(cur[1], hi)
+                strictly = bool(np.all((inter_lo < inter_hi) | ((inter_lo == inter_hi) & (((lo == hi) & (cur[0] < lo) & (hi < cur[1])) | ((cur[0] == cur[1]) & (lo < cur[0]) & (cur[1] < hi))))))
                 touching = np.all(cur[0] <= hi) and np.all(lo <= cur[1]) and not strictly
                 if touching:
                     ambiguous = True
@@ -285,8 +289,49 @@ def run_intersect(unit, res, only=None):
     res["outcomes"].append(f"isect:{sc}")
 
 
+def run_big(unit, res, only=None):
+    _, conf, n_pts = unit
+    core.import_vopy()
+    from vopy.design_space import FixedPointsDesignSpace
+
+    m = 2
+    X = np.linspace(0.0, 1.0, n_pts).reshape(-1, 1)
+    stub = seams.StubModel(X, m)
+    stub.mean = np.stack([np.arange(n_pts, dtype=float), -2.0 * np.arange(n_pts, dtype=float)], axis=1)  # identifies the design
+    stub.cov = np.array([np.diag([1.0 + 0.001 * i, 0.5 + 0.002 * i]) for i in range(n_pts)])
+    subsets = {"all": None, "tail": list(range(n_pts - 550, n_pts)), "reversed": list(range(n_pts - 1, -1, -1)), "every-other": list(range(0, n_pts, 2))}
+    for name, idx in subsets.items():
+        for form in (("scalar", "matrix") if conf == "hyperrectangle" else ("scalar",)):
+            ds = FixedPointsDesignSpace(X.copy(), m, confidence_type=conf)
+            touched = list(range(n_pts)) if idx is None else idx
+            scale = np.array(1.5) if form == "scalar" else np.array([[0.5 + 0.001 * r, 1.0 + 0.002 * r] for r in range(len(touched))])
+            res["evaluations"] += 1
+            res["transitions"] += 1
+            ds.update(stub, scale, idx)
+            for pos, i in enumerate(touched):
+                r = ds.confidence_regions[i]
+                sc = scale if scale.ndim < 2 else scale[pos]
+                if conf == "hyperrectangle":
+                    hw = np.sqrt(np.diag(stub.cov[i])) * sc
+                    ok = np.allclose(r.lower, stub.mean[i] - hw, atol=1e-9) and np.allclose(r.upper, stub.mean[i] + hw, atol=1e-9)
+                else:
+                    ok = np.allclose(r.center, stub.mean[i]) and np.allclose(r.sigma, stub.cov[i]) and float(np.asarray(r.alpha)) == 1.5
+                if not ok:
+                    got = [np.asarray(r.lower).tolist(), np.asarray(r.upper).tolist()] if conf == "hyperrectangle" else [np.asarray(r.center).tolist()]
+                    res["violations"].append(core.violation(
+                        PROPERTY, {"kind": "large-space-misaligned", "conf": conf}, {"mode": "big", "unit": list(unit)}, stub.mean[i].tolist(), got,
+                        f"FixedPointsDesignSpace({conf}) with {n_pts} designs, update(indices={name}, scale={form}): design {i} (position {pos}) displays {got}, its own prediction is centred at {stub.mean[i].tolist()}"))
+                    return
+            res["nontrivial"] += 1
+    core.bump(res, "large_space_updates")
+    res["outcomes"].append(f"big:{conf}:{n_pts}")
+    res["samples"].append({"large_design_space": {"conf": conf, "designs": n_pts, "index_forms": list(subsets)}})
+
+
 def units(ctx):
     us = []
+    for conf in ("hyperrectangle", "hyperellipsoid"):
+        us.append(("big", conf, 1300 if ctx.thorough else 600))
     for space in ("fixed", "adaptive"):
         confs = ("hyperrectangle", "hyperellipsoid") if space == "fixed" else ("hyperrectangle",)
         for conf in confs:
@@ -309,14 +354,16 @@ def units(ctx):
 
 def run_unit(unit):
     res = core.new_result()
-    {"d1": run_depth1, "d2": run_depth2, "isect": run_intersect}[unit[0]](unit, res)
+    {"d1": run_depth1, "d2": run_depth2, "isect": run_intersect, "big": run_big}[unit[0]](unit, res)
     return res
 
 
 def replay_case(case):
     res = core.new_result()
     u = tuple(case["unit"])
-    if case["mode"] == "d1":
+    if case["mode"] == "big":
+        run_big(u, res)
+    elif case["mode"] == "d1":
         run_depth1(u, res, only=[case["form"], case["idx"]])
     elif case["mode"] == "d2":
         run_depth2(u, res, only=case["seq"])
